@@ -185,6 +185,8 @@ def Block.size (w : Bool) (b : Block) : Nat :=
     + ((b.txs.map (Tx.size w)).sum)
 def Block.serW (w : Bool) (b : Block) : Bytes :=
   blockHeader.ser b.header ++ VarInt.ser b.txs.length ++ b.txs.flatMap (Tx.ser w)
+/-- `Block.is_segwit` -/
+def Block.isSegwit (b : Block) : Bool := b.txs.any Tx.isSegwit
 def Block.weight (b : Block) : Nat := b.size false * 3 + b.size true
 
 end Btc.Wire
